@@ -28,6 +28,18 @@ CHECKS = {
              "off or by a refused write are not compared; one known finding kept out by a guard.",
         tech=TECH % ("", "oracle = n-dimensional array reference model"),
     ),
+    "C07": dict(
+        profile="vdata", cat="exploration", ref="DESIGN.md section 4 C07",
+        text="Seeded search over Vdata histories: generated schemas (1..5 fields, 9 number types, orders 1..3, stored "
+             "interlace, block sizes), writes that overwrite, append and overwrite-and-append in both buffer "
+             "interlaces, reads of any record range with any field subset/permutation in both buffer interlaces, "
+             "VSinquire/VF* consistency, VSfpack pack/unpack, 1..2 clients with shared read attachments, "
+             "detach/re-attach, restarts; internal transfer buffer and linked-block sizes shrunk through guarded "
+             "hooks. Oracle: table-of-records model. 10 000 (quick) / 200 000 (thorough) histories.",
+        note="Trusts the table model; one writer or many readers per Vdata; NO_INTERLACE stored Vdatas only as "
+             "whole tables.",
+        tech=TECH % ("", "oracle = table-of-records reference model"),
+    ),
     "C12": dict(
         profile="ddmap", cat="exploration", ref="DESIGN.md section 4 C12",
         text="Seeded search over create/delete/duplicate/reuse/search/count/new-ref histories (descriptor-block sizes "
